@@ -1,4 +1,5 @@
-(** C12 — model of [LimitManager] (src/limiting.rs: [new], [disable], [register]) and of
+(** C12 — model of [LimitManager] (src/limiting.rs: [new], [default], the setters, [disable],
+    [register]; a manager = configuration + shared counters) and of
     the two places that react to its verdict (src/lib.rs: the accept loop [accept] and the
     request loop of [handle_connection]).  Definitions only; proofs are in
     Proofs/LimiterProofs.v.
@@ -169,113 +170,276 @@ Definition calls_of (b : N) (h : list event) : N := count b (map fst h).
 Definition fits (n : nat) : Prop := N.of_nat n <= usize_max / 3.
 
 (** ------------------------------------------------------------------------------------
+    Configuration as part of the state.
+
+    A [LimitManager] value is the three plain fields (the configuration) plus [Arc]s to the
+    counters.  Every public way to obtain / change the configuration:
+    [new(max, check_every, reset)], [Default] = [new(10, 10, 10.)] (also the [limiter] field
+    of every new [Host], src/host.rs [Host::unsecure]/[Host::new]), [set_max_requests],
+    [set_check_every], [set_reset_seconds], [disable] = [set_check_every(usize::MAX)].
+    The setters take [&mut self] and write one field; they never touch the counters, the
+    window start or the map.  A history may therefore interleave them with [register]. *)
+Definition default_config : config := {| max_requests := 10; check_every := 10; reset_after := Some 10000 |}.
+Definition set_max_requests (m : N) (c : config) : config :=
+  {| max_requests := m; check_every := check_every c; reset_after := reset_after c |}.
+Definition set_check_every (k : N) (c : config) : config :=
+  {| max_requests := max_requests c; check_every := k; reset_after := reset_after c |}.
+Definition set_reset_seconds (r : option N) (c : config) : config :=
+  {| max_requests := max_requests c; check_every := check_every c; reset_after := r |}.
+
+Inductive op : Type :=
+| Reg (a t : N)                 (* [register(a)] at clock reading [t] *)
+| SetMax (m : N)
+| SetEvery (k : N)
+| SetReset (r : option N)
+| Disable.
+
+Definition op_cfg (o : op) (c : config) : config :=
+  match o with
+  | Reg _ _ => c
+  | SetMax m => set_max_requests m c
+  | SetEvery k => set_check_every k c
+  | SetReset r => set_reset_seconds r c
+  | Disable => disable c
+  end.
+
+(** One manager driven through a history of operations; the answers of the [register] calls in order. *)
+Fixpoint run_ops (checked : bool) (cfg : config) (st : lstate) (ops : list op) : config * lstate * list (outcome action) :=
+  match ops with
+  | [] => (cfg, st, [])
+  | Reg a t :: r =>
+      let (st1, d) := register checked cfg st a t in
+      let '(c2, st2, ds) := run_ops checked cfg st1 r in
+      (c2, st2, d :: ds)
+  | o :: r => run_ops checked (op_cfg o cfg) st r
+  end.
+
+Definition decisions_ops (checked : bool) (cfg : config) (t0 : N) (ops : list op) : list (outcome action) :=
+  snd (run_ops checked cfg (init t0) ops).
+Definition state_after_ops (checked : bool) (cfg : config) (t0 : N) (ops : list op) : lstate :=
+  snd (fst (run_ops checked cfg (init t0) ops)).
+Fixpoint config_after (cfg : config) (ops : list op) : config :=
+  match ops with [] => cfg | o :: r => config_after (op_cfg o cfg) r end.
+
+(** Reference for histories with configuration changes.  "Every [check_every]-th call" has
+    no meaning across a change of [check_every]; the reference counts the calls since the last
+    sampled one: a call is *due* (sampled) when it is at least the [check_every]-th call since
+    the last sampled call, [check_every] being the value configured at the time of the call.
+    A due call made when the window is over (current [reset_seconds]) starts a new window and
+    is not counted; every other due call is counted and answered by the ladder of the
+    *current* [max_requests] on the multiplicity of its address in the window.  Real
+    arithmetic.  For a constant configuration this is [reference] (proved). *)
+Record qstate : Type := { q_seen : N; q_since : N; q_start : N; q_counted : list N }.
+Definition qinit (now : N) : qstate := {| q_seen := 0; q_since := 0; q_start := now; q_counted := [] |}.
+Definition due (k since : N) : bool := k <=? since + 1.
+
+Definition qstep (cfg : config) (qs : qstate) (a t : N) : qstate * action :=
+  if check_every cfg =? usize_max then (qs, Passed)
+  else if negb (due (check_every cfg) (q_since qs)) then
+    ({| q_seen := q_seen qs + 1; q_since := q_since qs + 1; q_start := q_start qs; q_counted := q_counted qs |}, Passed)
+  else if window_over (reset_after cfg) (t - q_start qs) then
+    ({| q_seen := q_seen qs + 1; q_since := 0; q_start := t; q_counted := [] |}, Passed)
+  else
+    ({| q_seen := q_seen qs + 1; q_since := 0; q_start := q_start qs; q_counted := a :: q_counted qs |},
+     ladder (max_requests cfg) (count a (a :: q_counted qs))).
+
+Fixpoint ref_ops (cfg : config) (qs : qstate) (ops : list op) : config * qstate * list action :=
+  match ops with
+  | [] => (cfg, qs, [])
+  | Reg a t :: r =>
+      let (qs1, d) := qstep cfg qs a t in
+      let '(c2, qs2, ds) := ref_ops cfg qs1 r in
+      (c2, qs2, d :: ds)
+  | o :: r => ref_ops (op_cfg o cfg) qs r
+  end.
+Definition reference_ops (cfg : config) (t0 : N) (ops : list op) : list action := snd (ref_ops cfg (qinit t0) ops).
+
+(** Counted requests of [b] in the window current after [ops]; calls of [b]; the [register] calls of a history. *)
+Definition counted_ops (cfg : config) (t0 : N) (ops : list op) (b : N) : N :=
+  count b (q_counted (snd (fst (ref_ops cfg (qinit t0) ops)))).
+Definition reg_of (e : event) : op := Reg (fst e) (snd e).
+Fixpoint regs (ops : list op) : list event :=
+  match ops with
+  | [] => []
+  | Reg a t :: r => (a, t) :: regs r
+  | _ :: r => regs r
+  end.
+Definition is_reg (o : op) : bool := match o with Reg _ _ => true | _ => false end.
+
+(** ------------------------------------------------------------------------------------
     The server around the limiter (src/lib.rs).
 
-    [accept]: loop { accept; on error count consecutive failures and give up above 100;
-    on shutdown return; [register(addr.ip())] on the pre-host limiter — which shares its
-    state with the first host's limiter (host.rs [CollectionBuilder::insert] clones it, the
-    counters are behind [Arc]s) — [Drop] => drop the stream, anything else => spawn
-    [handle_connection] }.
-    [handle_connection]: for every request [register] again on the host's limiter:
+    [accept] (one instance per listening socket: IPv4 and IPv6, TCP and — with TLS — QUIC;
+    each instance has its own failure counter, all share the limiters):
+      let mut fails_without_accepting = 0; let threshold = 100;
+      loop {
+        match listener.accept(shutdown_manager).await {
+          Shutdown                  => return Ok(()),
+          AcceptTcp(Ok(c))          => c,
+          AcceptTcp(Err(e))         => { fails += 1; if fails > threshold { return Err(e) } continue }
+          AcceptUdp(Ok(c))          => c,
+          AcceptUdp(Err(TimedOut))  => continue,
+          AcceptUdp(Err(e))         => { fails += 1; if fails > threshold { return Err(e) } continue }
+        };
+        fails = 0;
+        match descriptor.data.limiter().register(addr.ip()) {      // the pre-host limiter
+          Drop => { drop(stream); continue }
+          Send | Passed => {}
+        }
+        spawn(handle_connection(..))
+      }
+    [return Err] makes the spawning task panic on [.expect("Failed to accept message!")];
+    either [return] drops the listening socket.  A panic inside [register] unwinds the task.
+    The pre-host limiter is a clone of the first host's limiter taken by
+    [CollectionBuilder::insert] (same configuration at that moment, shared counters) unless
+    [set_pre_host_limiter] installs another manager (own configuration; counters shared or not,
+    depending on whether it is a clone).
+    [handle_connection]: for every request [register] on the host's limiter:
     [Drop] => return (socket closed, no answer), [Send] => 429 and continue, [Passed] => the
     host's answer.
     A sequential connection history: each client connects, sends its requests one after
     the other waiting for each answer, and closes; so all [register] calls are ordered. *)
+Record sconfig : Type := { pre_cfg : config; host_cfg : config; shared : bool }.
+Definition same_limiter (c : config) : sconfig := {| pre_cfg := c; host_cfg := c; shared := true |}.
+
+(** The counters of the pre-host limiter and of the host limiter. *)
+Definition after_pre {A} (sh : bool) (new : A) (p : A * A) : A * A := if sh then (new, new) else (new, snd p).
+Definition after_host {A} (sh : bool) (new : A) (p : A * A) : A * A := if sh then (new, new) else (fst p, new).
+
 Inductive conn_event : Type :=
 | Conn (addr : N) (t : N) (reqs : list N)   (* accepted at clock [t]; clock reading of each request *)
-| AcceptErr                                 (* [accept()] returned an I/O error *)
-| Shutdown.                                 (* [AcceptAction::Shutdown] *)
+| AcceptErr                                 (* [accept()] returned an I/O error (TCP, or QUIC other than TimedOut) *)
+| AcceptTimeout                             (* QUIC handshake timed out: [continue], nothing counted *)
+| Shutdown                                  (* [AcceptAction::Shutdown] *)
+| Other (on_host : bool) (addr t : N).      (* a [register] call made by another task (the loop of another
+                                               listener, or one of its connections) on the shared limiters *)
 
 Inductive reply : Type := Normal | TooMany.
 Inductive conn_result : Type :=
 | Refused                                   (* nobody accepts: the listener task has ended *)
 | Served (answers : list reply) (cut : bool). (* answers received; [cut]: closed by the server without an answer *)
 
-Fixpoint serve_requests (checked : bool) (cfg : config) (st : lstate) (a : N) (ts : list N)
-  : lstate * list reply * bool :=
+Fixpoint serve_requests (checked : bool) (sc : sconfig) (p : lstate * lstate) (a : N) (ts : list N)
+  : (lstate * lstate) * list reply * bool :=
   match ts with
-  | [] => (st, [], false)
+  | [] => (p, [], false)
   | t :: r =>
-      let (st1, d) := register checked cfg st a t in
+      let (st1, d) := register checked (host_cfg sc) (snd p) a t in
+      let p1 := after_host (shared sc) st1 p in
       match d with
-      | Ok Passed => let '(st2, l, c) := serve_requests checked cfg st1 a r in (st2, Normal :: l, c)
-      | Ok Send => let '(st2, l, c) := serve_requests checked cfg st1 a r in (st2, TooMany :: l, c)
-      | _ => (st1, [], true)      (* Drop: [return Ok(())]; a panic unwinds the task: the socket is closed either way *)
+      | Ok Passed => let '(p2, l, c) := serve_requests checked sc p1 a r in (p2, Normal :: l, c)
+      | Ok Send => let '(p2, l, c) := serve_requests checked sc p1 a r in (p2, TooMany :: l, c)
+      | _ => (p1, [], true)      (* Drop: [return Ok(())]; a panic unwinds the task: the socket is closed either way *)
       end
   end.
 
-Record aloop : Type := { alive : bool; fails : N; lim : lstate }.
+Inductive lstatus : Type :=
+| Running
+| ReturnedOk      (* shutdown (or, in kvarn 0.6.3, a dropped connection) *)
+| ReturnedErr     (* more than [fail_threshold] consecutive accept errors *)
+| Panicked.       (* [register] panicked inside the loop *)
+
+Record aloop : Type := { status : lstatus; fails : N; lims : lstate * lstate }.
+Definition fail_threshold : N := 100.
 
 (** [on_drop_continue]: what the accept loop does after dropping a stream:
     [true] = [continue] (the repaired code), [false] = [return Ok(())] (kvarn 0.6.3). *)
-Definition accept_step (on_drop_continue checked : bool) (cfg : config) (s : aloop) (e : conn_event)
+Definition accept_step (on_drop_continue checked : bool) (sc : sconfig) (s : aloop) (e : conn_event)
   : aloop * option conn_result :=
-  if negb (alive s) then (s, match e with Conn _ _ _ => Some Refused | _ => None end)
-  else
-    match e with
-    | Shutdown => ({| alive := false; fails := fails s; lim := lim s |}, None)
-    | AcceptErr =>
-        let f := fails s + 1 in
-        ({| alive := negb (100 <? f); fails := f; lim := lim s |}, None)
-    | Conn a t reqs =>
-        let (st1, d) := register checked cfg (lim s) a t in
-        match d with
-        | Ok Drop => ({| alive := on_drop_continue; fails := 0; lim := st1 |}, Some (Served [] true))
-        | Ok _ =>
-            let '(st2, l, c) := serve_requests checked cfg st1 a reqs in
-            ({| alive := true; fails := 0; lim := st2 |}, Some (Served l c))
-        | _ => ({| alive := false; fails := 0; lim := st1 |}, Some (Served [] true))   (* the accept task panicked *)
-        end
-    end.
+  match status s with
+  | Running =>
+      match e with
+      | Shutdown => ({| status := ReturnedOk; fails := fails s; lims := lims s |}, None)
+      | AcceptTimeout => (s, None)
+      | AcceptErr =>
+          let f := fails s + 1 in
+          ({| status := if fail_threshold <? f then ReturnedErr else Running; fails := f; lims := lims s |}, None)
+      | Other on_host a t =>
+          if on_host
+          then ({| status := Running; fails := fails s;
+                   lims := after_host (shared sc) (fst (register checked (host_cfg sc) (snd (lims s)) a t)) (lims s) |}, None)
+          else ({| status := Running; fails := fails s;
+                   lims := after_pre (shared sc) (fst (register checked (pre_cfg sc) (fst (lims s)) a t)) (lims s) |}, None)
+      | Conn a t reqs =>
+          (* [fails_without_accepting = 0] comes first, then the limiter *)
+          let (st1, d) := register checked (pre_cfg sc) (fst (lims s)) a t in
+          let p1 := after_pre (shared sc) st1 (lims s) in
+          match d with
+          | Ok Drop => ({| status := if on_drop_continue then Running else ReturnedOk; fails := 0; lims := p1 |},
+                        Some (Served [] true))
+          | Ok _ =>
+              let '(p2, l, c) := serve_requests checked sc p1 a reqs in
+              ({| status := Running; fails := 0; lims := p2 |}, Some (Served l c))
+          | _ => ({| status := Panicked; fails := 0; lims := p1 |}, Some (Served [] true))
+          end
+      end
+  | _ => (s, match e with Conn _ _ _ => Some Refused | _ => None end)
+  end.
 
-Fixpoint accept_run (odc checked : bool) (cfg : config) (s : aloop) (evs : list conn_event)
+Fixpoint accept_run (odc checked : bool) (sc : sconfig) (s : aloop) (evs : list conn_event)
   : aloop * list conn_result :=
   match evs with
   | [] => (s, [])
   | e :: r =>
-      let (s1, o) := accept_step odc checked cfg s e in
-      let (s2, os) := accept_run odc checked cfg s1 r in
+      let (s1, o) := accept_step odc checked sc s e in
+      let (s2, os) := accept_run odc checked sc s1 r in
       (s2, match o with Some x => x :: os | None => os end)
   end.
 
-Definition astart (t0 : N) : aloop := {| alive := true; fails := 0; lim := init t0 |}.
+Definition astart (t0 : N) : aloop := {| status := Running; fails := 0; lims := (init t0, init t0) |}.
 
 (** The accept loop of the code as it stands in the repository (after the [fix:] commit). *)
-Definition accept_loop (checked : bool) (cfg : config) (t0 : N) (evs : list conn_event) : list conn_result * bool :=
-  let (s, os) := accept_run true checked cfg (astart t0) evs in (os, alive s).
+Definition accept_loop (checked : bool) (sc : sconfig) (t0 : N) (evs : list conn_event) : list conn_result * lstatus :=
+  let (s, os) := accept_run true checked sc (astart t0) evs in (os, status s).
 (** The accept loop of kvarn 0.6.3 ([LimitAction::Drop => { drop(stream); return Ok(()) }]). *)
-Definition accept_loop_063 (checked : bool) (cfg : config) (t0 : N) (evs : list conn_event) : list conn_result * bool :=
-  let (s, os) := accept_run false checked cfg (astart t0) evs in (os, alive s).
+Definition accept_loop_063 (checked : bool) (sc : sconfig) (t0 : N) (evs : list conn_event) : list conn_result * lstatus :=
+  let (s, os) := accept_run false checked sc (astart t0) evs in (os, status s).
+
+(** Specification of the listener: whether (and how) the loop has ended is a function of the
+    *kinds* of the accept events alone — shutdown request, or more than 100 accept errors in a
+    row with no accepted connection in between.  No address, request, limiter verdict or
+    configuration occurs in it. *)
+Fixpoint loop_spec (f : N) (evs : list conn_event) : lstatus :=
+  match evs with
+  | [] => Running
+  | Shutdown :: _ => ReturnedOk
+  | AcceptErr :: r => if fail_threshold <? f + 1 then ReturnedErr else loop_spec (f + 1) r
+  | AcceptTimeout :: r => loop_spec f r
+  | Other _ _ _ :: r => loop_spec f r
+  | Conn _ _ _ :: r => loop_spec 0 r
+  end.
 
 (** Specification of the server: every connection is accepted, and what it receives is
-    decided by the reference counter alone. *)
-Fixpoint spec_requests (cfg : config) (rs : rstate) (a : N) (ts : list N) : rstate * list reply * bool :=
+    decided by the reference counter(s) alone. *)
+Fixpoint spec_requests (sc : sconfig) (p : qstate * qstate) (a : N) (ts : list N) : (qstate * qstate) * list reply * bool :=
   match ts with
-  | [] => (rs, [], false)
+  | [] => (p, [], false)
   | t :: r =>
-      let (rs1, d) := ref_step cfg rs a t in
+      let (q1, d) := qstep (host_cfg sc) (snd p) a t in
+      let p1 := after_host (shared sc) q1 p in
       match d with
-      | Passed => let '(rs2, l, c) := spec_requests cfg rs1 a r in (rs2, Normal :: l, c)
-      | Send => let '(rs2, l, c) := spec_requests cfg rs1 a r in (rs2, TooMany :: l, c)
-      | Drop => (rs1, [], true)
+      | Passed => let '(p2, l, c) := spec_requests sc p1 a r in (p2, Normal :: l, c)
+      | Send => let '(p2, l, c) := spec_requests sc p1 a r in (p2, TooMany :: l, c)
+      | Drop => (p1, [], true)
       end
   end.
 
 Definition connection : Type := (N * N * list N)%type.
 Definition conn_of (c : connection) : conn_event := let '(a, t, reqs) := c in Conn a t reqs.
 
-Fixpoint spec_server_from (cfg : config) (rs : rstate) (cs : list connection) : list conn_result :=
+Fixpoint spec_server_from (sc : sconfig) (p : qstate * qstate) (cs : list connection) : list conn_result :=
   match cs with
   | [] => []
   | (a, t, reqs) :: r =>
-      let (rs1, d) := ref_step cfg rs a t in
+      let (q1, d) := qstep (pre_cfg sc) (fst p) a t in
+      let p1 := after_pre (shared sc) q1 p in
       match d with
-      | Drop => Served [] true :: spec_server_from cfg rs1 r
-      | _ => let '(rs2, l, c) := spec_requests cfg rs1 a reqs in Served l c :: spec_server_from cfg rs2 r
+      | Drop => Served [] true :: spec_server_from sc p1 r
+      | _ => let '(p2, l, c) := spec_requests sc p1 a reqs in Served l c :: spec_server_from sc p2 r
       end
   end.
-Definition spec_server (cfg : config) (t0 : N) (cs : list connection) : list conn_result :=
-  spec_server_from cfg (rinit t0) cs.
+Definition spec_server (sc : sconfig) (t0 : N) (cs : list connection) : list conn_result :=
+  spec_server_from sc (qinit t0, qinit t0) cs.
 
 (** Upper bound on the number of [register] calls a connection history can cause. *)
 Fixpoint calls_bound (cs : list connection) : nat :=
@@ -290,13 +454,14 @@ Fixpoint max_err_run (cur : N) (evs : list conn_event) : N :=
   | [] => cur
   | AcceptErr :: r => N.max (cur + 1) (max_err_run (cur + 1) r)
   | Conn _ _ _ :: r => N.max cur (max_err_run 0 r)
-  | Shutdown :: r => N.max cur (max_err_run cur r)
+  | _ :: r => N.max cur (max_err_run cur r)
   end.
 Definition is_shutdown (e : conn_event) : bool := match e with Shutdown => true | _ => false end.
 Fixpoint ev_calls_bound (evs : list conn_event) : nat :=
   match evs with
   | [] => O
   | Conn _ _ reqs :: r => (S (length reqs) + ev_calls_bound r)%nat
+  | Other _ _ _ :: r => S (ev_calls_bound r)
   | _ :: r => ev_calls_bound r
   end.
 
@@ -360,29 +525,116 @@ Definition run_reference (x : xval) : xval :=
   | _ => bad_input
   end.
 
-(** connection history: (L (L (N addr) (N dt) (N nreq)) ...); the requests of a connection
-    are made at the clock reading of the connection. *)
-Definition d_conn (x : xval) : option (N * N * nat) :=
-  match x with XL [XN a; XN dt; XN n] => Some (a, dt, N.to_nat n) | _ => None end.
-Fixpoint abs_conns (now : N) (l : list (N * N * nat)) : list connection :=
+(** histories with configuration changes:  (L checked ctor (L op ...))
+    ctor : (L (N 0) config)  [LimitManager::new]
+           (L (N 1))         [LimitManager::default()]
+           (L (N 2))         the [limiter] field of a new [Host]
+    op   : (L (N 0) (N addr) (N dt))  register, dt clock units after the previous operation
+           (L (N 1) (N m)) set_max_requests   (L (N 2) (N k)) set_check_every
+           (L (N 3) reset) set_reset_seconds  (L (N 4)) disable *)
+Definition d_ctor (x : xval) : option config :=
+  match x with
+  | XL [XN 0; cf] => d_config cf
+  | XL [XN 1] => Some default_config
+  | XL [XN 2] => Some default_config
+  | _ => None
+  end.
+(** a decoded operation still carries the relative wait *)
+Definition d_op (x : xval) : option op :=
+  match x with
+  | XL [XN 0; XN a; XN dt] => Some (Reg a dt)
+  | XL [XN 1; XN m] => if m <=? usize_max then Some (SetMax m) else None
+  | XL [XN 2; XN k] => if k <=? usize_max then Some (SetEvery k) else None
+  | XL [XN 3; r] => match d_reset r with Some ra => Some (SetReset ra) | None => None end
+  | XL [XN 4] => Some Disable
+  | _ => None
+  end.
+Fixpoint absolute_ops (now : N) (l : list op) : list op :=
   match l with
   | [] => []
-  | (a, dt, n) :: r => (a, now + dt, repeat (now + dt) n) :: abs_conns (now + dt) r
+  | Reg a dt :: r => Reg a (now + dt) :: absolute_ops (now + dt) r
+  | o :: r => o :: absolute_ops now r
   end.
-Definition reply_code (r : reply) : N := match r with Normal => 404 | TooMany => 429 end.
+
+Definition run_ops_x (x : xval) : xval :=
+  match x with
+  | XL [c; ct; h] =>
+      match d_bool c, d_ctor ct, d_list d_op h with
+      | Some checked, Some cfg, Some ops => XL (map x_decision (decisions_ops checked cfg 0 (absolute_ops 0 ops)))
+      | _, _, _ => bad_input
+      end
+  | _ => bad_input
+  end.
+Definition run_ops_reference (x : xval) : xval :=
+  match x with
+  | XL [c; ct; h] =>
+      match d_bool c, d_ctor ct, d_list d_op h with
+      | Some _, Some cfg, Some ops => XL (map (fun a => XN (action_code a)) (reference_ops cfg 0 (absolute_ops 0 ops)))
+      | _, _, _ => bad_input
+      end
+  | _ => bad_input
+  end.
+
+(** server:  (L checked sconf (L conn ...))
+    sconf : (L (N path) config pre (N bind))
+            path 0: [host.limiter = LimitManager::new(config)]
+                 1: setters on the [limiter] field the [Host] was created with (a [Default])
+            pre  (L)            the pre-host limiter is the clone taken by [insert]
+                 (L (N 0) cfg)  [set_pre_host_limiter(LimitManager::new(cfg))]: own counters
+                 (L (N 1) cfg)  [set_pre_host_limiter(host.limiter.clone() + setters)]: shared counters
+            bind: which sockets the harness binds (IPv4 only / dual stack) — not a parameter of the model
+    conn  : (L (N addr) (N dt) (N nreq))  or  (L (N addr) (N dt) (N nreq) (N times)): the same
+            connection [times] times in a row (dt before the first only); the requests of a
+            connection are made at the clock reading of the connection. *)
+Definition d_sconfig (x : xval) : option sconfig :=
+  match x with
+  | XL [XN path; cf; pre; XN _] =>
+      match d_config cf with
+      | Some c0 =>
+          let hc := if path =? 0 then Some c0
+                    else if path =? 1
+                    then Some (set_reset_seconds (reset_after c0) (set_check_every (check_every c0)
+                                 (set_max_requests (max_requests c0) default_config)))
+                    else None in
+          match hc, pre with
+          | Some hc, XL [] => Some (same_limiter hc)
+          | Some hc, XL [XN 0; pc] =>
+              match d_config pc with Some pc => Some {| pre_cfg := pc; host_cfg := hc; shared := false |} | None => None end
+          | Some hc, XL [XN 1; pc] =>
+              match d_config pc with Some pc => Some {| pre_cfg := pc; host_cfg := hc; shared := true |} | None => None end
+          | _, _ => None
+          end
+      | None => None
+      end
+  | _ => None
+  end.
+
+Definition d_conn (x : xval) : option (N * N * nat * nat) :=
+  match x with
+  | XL [XN a; XN dt; XN n] => Some (a, dt, N.to_nat n, 1%nat)
+  | XL [XN a; XN dt; XN n; XN k] => Some (a, dt, N.to_nat n, N.to_nat k)
+  | _ => None
+  end.
+Fixpoint abs_conns (now : N) (l : list (N * N * nat * nat)) : list connection :=
+  match l with
+  | [] => []
+  | (a, dt, n, k) :: r => repeat (a, now + dt, repeat (now + dt) n) k ++ abs_conns (now + dt) r
+  end.
+Definition reply_code (r : reply) : N := match r with Normal => 200 | TooMany => 429 end.
 Definition x_conn_result (r : conn_result) : xval :=
   match r with
   | Refused => XL [XN 3]
   | Served l c => XL [XN 0; XL (map (fun r => XN (reply_code r)) l); x_bool c]
   end.
+Definition running (s : lstatus) : bool := match s with Running => true | _ => false end.
 
-Definition run_server_gen (loop : bool -> config -> N -> list conn_event -> list conn_result * bool) (x : xval) : xval :=
+Definition run_server_gen (loop : bool -> sconfig -> N -> list conn_event -> list conn_result * lstatus) (x : xval) : xval :=
   match x with
   | XL [c; cf; h] =>
-      match d_bool c, d_config cf, d_list d_conn h with
-      | Some checked, Some cfg, Some cs =>
-          let (os, al) := loop checked cfg 0 (map conn_of (abs_conns 0 cs)) in
-          XL [XL (map x_conn_result os); x_bool al]
+      match d_bool c, d_sconfig cf, d_list d_conn h with
+      | Some checked, Some sc, Some cs =>
+          let (os, al) := loop checked sc 0 (map conn_of (abs_conns 0 cs)) in
+          XL [XL (map x_conn_result os); x_bool (running al)]
       | _, _, _ => bad_input
       end
   | _ => bad_input
@@ -393,8 +645,8 @@ Definition run_server_063 := run_server_gen accept_loop_063.
 Definition run_server_spec (x : xval) : xval :=
   match x with
   | XL [c; cf; h] =>
-      match d_bool c, d_config cf, d_list d_conn h with
-      | Some _, Some cfg, Some cs => XL [XL (map x_conn_result (spec_server cfg 0 (abs_conns 0 cs))); x_bool true]
+      match d_bool c, d_sconfig cf, d_list d_conn h with
+      | Some _, Some sc, Some cs => XL [XL (map x_conn_result (spec_server sc 0 (abs_conns 0 cs))); x_bool true]
       | _, _, _ => bad_input
       end
   | _ => bad_input
@@ -403,6 +655,8 @@ Definition run_server_spec (x : xval) : xval :=
 Definition limiter_table : list (bytes * (xval -> xval)) :=
   [ (B "limiter.register", run_register);
     (B "limiter.reference", run_reference);
+    (B "limiter.ops", run_ops_x);
+    (B "limiter.ops_reference", run_ops_reference);
     (B "limiter.server", run_server);
     (B "limiter.server_063", run_server_063);
     (B "limiter.server_spec", run_server_spec) ].
